@@ -78,12 +78,18 @@ def scaled_dot_product_attention(query, key, value, attn_mask, dropout_p, is_cau
 def cross_entropy(input, target, ignore_index, reduction, mult, **_):
     loss = F.cross_entropy(input * mult, target, None, None, ignore_index, None, reduction="sum", label_smoothing=0.0)
     if reduction == "mean":
+        if len(target.shape) == len(input.shape):
+            # class-probability targets: ignore_index does not apply, the mean is over the rows of logits
+            return loss / (input.numel() / input.shape[-1])
         return loss / count_targets(target, ignore_index)
     return loss
 
 def mse_loss(input, target, reduction, **_):
     loss = F.mse_loss(input, target, None, None, reduction="sum")
     if reduction == "mean":
+        if input.shape != target.shape:
+            # (only the (a,1)-vs-(a,) pairings are evaluated: F.mse_loss broadcasts them to a x a)
+            return loss / (input.numel() * target.numel())
         return loss / input.numel()
     return loss
 '''
@@ -170,14 +176,14 @@ def check_docs(report: Report, repo: Repo) -> None:
     it = Interp(repo)
     mod = repo.module(DOCS)
     # (1) behaviour of the wrapper produced by _validate, on a small probe function
-    probe_src = "def probe(input, mult=1.0, inplace=False, sparse=False):\n    return F.relu(input)\n"
+    probe_src = "def probe(input, mult=1.0, inplace=False, sparse=False, alpha=1, reduce=None, size_average=True):\n    return F.relu(input)\n"
     probe = oracle_function(it, "probe", probe_src, std_globals(it))
     validate = it.get_global(DOCS, "_validate")
     cons = f"{DOCS}::_validate"
     x = P("x", None)
     try:
         it.events = []
-        wrapped = it.call_function(validate, [probe, ["inplace", "sparse"]], {})
+        wrapped = it.call_function(validate, [probe, ["inplace", "sparse", "alpha", "reduce", "size_average"]], {})
         if not isinstance(wrapped, FuncV):
             report.add("R5-guard", cons, False, "does not return a wrapper function", fmt(wrapped), "wrapper")
             return
@@ -187,6 +193,11 @@ def check_docs(report: Report, repo: Repo) -> None:
             ("keyword default", [x], {"inplace": False}, False),
             ("positional default", [x, 2, False, False], {}, False),
             ("supported arg non-default", [x], {"mult": 3}, False),
+            # falsy is not the same as default: alpha=0, reduce=False, size_average=False differ from the defaults
+            ("falsy int where the default is 1", [x], {"alpha": 0}, True),
+            ("False where the default is None", [x], {"reduce": False}, True),
+            ("False where the default is True", [x], {"size_average": False}, True),
+            ("None where the default is None", [x], {"reduce": None}, False),
         ]
         for name, a, k, should_raise in scen:
             it.events = []
@@ -412,6 +423,26 @@ def check(report: Report, repo: Repo) -> None:
             if p not in it.param_names(f):
                 report.add("R5-params", f"{FUNCTIONAL}::{func}::{p}", False, "unsupported_args names a non-parameter")
     check_docs(report, repo)
+    # shapes F.mse_loss would broadcast: U.mse_loss documents that it requires equal shapes, so it must refuse them
+    # (or else reproduce F.mse_loss exactly -- a summed N x N loss divided by N is N times PyTorch's)
+    for sch in SC.mse_mismatch_schemas():
+        f = it.get_global(FUNCTIONAL, "mse_loss")
+        full = SC.Schema(sch.name, fill_args(it, f, sch.args), sch.note, sch.dims_ge2)
+        summ = summarise(repo, "mse_loss", full, interp=it)
+        base = f"{FUNCTIONAL}::mse_loss::{sch.name}"
+        if summ.error is not None:
+            report.add("R2-reference", base, None, f"outside the analysable fragment: {summ.error}")
+            continue
+        raised = [e["exc"] for e in summ.events if e.kind == "raise"]
+        if not summ.cases:
+            report.add("R2-reference", base, "ValueError" in raised, "input and target of different shapes are refused with ValueError", raised, ["ValueError"], nontrivial=False)
+            continue
+        try:
+            ref_val = it.call_function(oracle_function(it, "mse_loss", REFS, g), [], dict(full.args))
+            ok = all(symb.ratio(c.term, TM.term_of(ref_val))[0] == 1 for c in summ.cases)
+        except Exception:
+            ok = False
+        report.add("R2-reference", base, ok, "input and target of different shapes: refused, or exactly F.mse_loss of the broadcast pair", "accepted with another result", "ValueError, or F.mse_loss")
     # the forward value of every function goes through scale.py's primitive: its contract (value = factor x
     # input as a *new* tensor, no aliasing of the argument, zero/negative factors as given) is part of this property
     from .c02 import check_primitives
